@@ -356,4 +356,129 @@ def SpecOK (sp : Spec) : Prop :=
 
 def SpecsOK (ctx : Ctx) : Prop := ∀ a l, ctx.specs a = some l → ∀ sp ∈ l, SpecOK sp
 
+/-! ### perf-cpuN.dat: `read_perf_event()` of utils/perf.c
+
+A record is a `struct perf_event_header {u32 type; u16 misc; u16 size}` followed by `size - 8` bytes:
+PERF_RECORD_SWITCH (14) = `sample_id {u32 pid, tid; u64 time}`; PERF_RECORD_FORK (7) / _EXIT (4) =
+`{u32 pid, ppid, tid, ptid; u64 time}` + the trailing `sample_id`; PERF_RECORD_COMM (3) =
+`{u32 pid, tid; char comm[]}` (8-aligned) + the trailing `sample_id`; every other type is skipped with
+`fseek(len)`, which also succeeds beyond the end of the file.  The reader is modelled AS CODED: the body
+of a known record is read with one `fread(&u, len, 1, fp)` of the whole record (comm: the part before
+the `sample_id`, then the `sample_id`) into a 40-byte union on the stack, with `len` taken from the file.
+A failed body read is `return -1` WITHOUT `perf->done`: the caller's next call goes on at the (then
+exhausted) file position - `.again`.  `fixed = true` is the reader with proposed_fixes/C12-PERF-LEN.diff
+(a record whose size field does not fit its type ends the file).  Fields of a record shorter than its
+struct are indeterminate stack bytes in C; here they decode the bytes that are there. -/
+
+/-- an event as `read_perf_event` delivers it (before the caller's task / time-range filter) -/
+structure PEv where
+  typ : Nat          -- PERF_RECORD_*: 3 COMM, 4 EXIT, 7 FORK, 14 SWITCH
+  misc : Nat
+  pid : Nat
+  tid : Nat
+  time : Nat
+  deriving DecidableEq, Repr
+
+inductive PStatus
+  | eof            -- the header read failed: perf->done
+  | oob            -- fread stored more than sizeof(u) = 40 bytes in the union
+  | badSize        -- h.size < sizeof(h): `len` wraps around (fseek backwards / fread of 2^64 - x bytes)
+  | fuel
+  deriving DecidableEq, Repr
+
+inductive PStep
+  | got (e : PEv) (rest : Bytes)
+  | again (rest : Bytes)     -- `goto again` / `return -1` without `done`: reading goes on at `rest`
+  | done (st : PStatus)
+  deriving Repr
+
+def perfUnion : Nat := 40
+
+/-- little-endian field of `n` bytes at offset `off` -/
+def sub (b : Bytes) (off n : Nat) : Nat := leVal ((b.drop off).take n)
+
+def readPerfEv (fixed : Bool) (s : Bytes) : PStep :=
+  match fread 8 s with
+  | none => .done .eof
+  | some (h, s1) =>
+    let typ := sub h 0 4
+    let misc := sub h 4 2
+    let size := sub h 6 2
+    if size < 8 then .done (if fixed then .eof else .badSize) else
+    let len := size - 8
+    if typ = 14 ∨ typ = 4 ∨ typ = 7 then
+      if fixed && (len < (if typ = 14 then 16 else 24) || perfUnion < len) then .done .eof else
+      -- fread stores what it gets, up to `len` bytes, in the union
+      if perfUnion < min len s1.length then .done .oob else
+      if len = 0 then .again s1 else          -- fread of 0 bytes returns 0
+      match fread len s1 with
+      | none => .again []
+      | some (b, rest) =>
+        if typ = 14 then .got ⟨typ, misc, sub b 0 4, sub b 4 4, sub b 8 8⟩ rest
+        else .got ⟨typ, misc, sub b 0 4, sub b 8 4, sub b 16 8⟩ rest
+    else if typ = 3 then
+      if fixed && (len < 24 || perfUnion < len) then .done .eof else
+      -- comm_len = ALIGN(len - sizeof(sample_id), 8) in an int: negative (a huge size_t) for len ≤ 8
+      if len < 9 then (if perfUnion < s1.length then .done .oob else .again []) else
+      let cl := (len - 16 + 7) / 8 * 8
+      if perfUnion < min cl s1.length then .done .oob else
+      if cl = 0 then .again s1 else
+      match fread cl s1 with
+      | none => .again []
+      | some (c, s2) =>
+        match fread 16 s2 with
+        | none => .again []
+        | some (sid, rest) => .got ⟨typ, misc, sub c 0 4, sub c 4 4, sub sid 8 8⟩ rest
+    else .again (s1.drop len)
+
+def readPerfAllF (fixed : Bool) : Nat → Bytes → List PEv × PStatus
+  | 0, _ => ([], .fuel)
+  | n + 1, s =>
+    match readPerfEv fixed s with
+    | .done st => ([], st)
+    | .again rest => readPerfAllF fixed n rest
+    | .got e rest =>
+      let x := readPerfAllF fixed n rest
+      (e :: x.1, x.2)
+
+/-- all events of one perf-cpuN.dat and the reason reading stopped -/
+def readPerfAll (fixed : Bool) (s : Bytes) : List PEv × PStatus :=
+  readPerfAllF fixed (s.length / 8 + 2) s
+
+/-! the writer's side (the kernel's ring buffer, copied by `record_perf_data`) -/
+
+structure PRec where
+  typ : Nat
+  misc : Nat
+  body : Bytes
+  deriving DecidableEq, Repr
+
+def PRec.hdr (r : PRec) : Bytes := leBytes 4 r.typ ++ (leBytes 2 r.misc ++ leBytes 2 (8 + r.body.length))
+
+def PRec.enc (r : PRec) : Bytes := r.hdr ++ r.body
+
+def pEncodeAll : List PRec → Bytes
+  | [] => []
+  | r :: rs => r.enc ++ pEncodeAll rs
+
+/-- what the kernel writes with `sample_id_all` and sample_type TID | TIME: the body sizes of the four
+    record types the reader knows; any other type with any body -/
+def PWF (r : PRec) : Prop :=
+  r.typ < 2 ^ 32 ∧ r.misc < 2 ^ 16 ∧ 8 + r.body.length < 2 ^ 16 ∧
+  (r.typ = 14 → r.body.length = 16) ∧ (r.typ = 4 ∨ r.typ = 7 → r.body.length = 40) ∧
+  (r.typ = 3 → r.body.length = 32 ∨ r.body.length = 40)
+
+/-- the event a whole record stands for (`none`: a type the reader skips) -/
+def pEvOf (r : PRec) : Option PEv :=
+  if r.typ = 14 then some ⟨r.typ, r.misc, sub r.body 0 4, sub r.body 4 4, sub r.body 8 8⟩
+  else if r.typ = 4 ∨ r.typ = 7 then some ⟨r.typ, r.misc, sub r.body 0 4, sub r.body 8 4, sub r.body 16 8⟩
+  else if r.typ = 3 then
+    some ⟨r.typ, r.misc, sub r.body 0 4, sub r.body 4 4, sub (r.body.drop (r.body.length - 16)) 8 8⟩
+  else none
+
+/-- number of leading records completely present in the first `k` bytes of `pEncodeAll rs` -/
+def pWholeBefore : List PRec → Nat → Nat
+  | [], _ => 0
+  | r :: rs, k => if r.enc.length ≤ k then 1 + pWholeBefore rs (k - r.enc.length) else 0
+
 end Uft.Trunc
